@@ -292,11 +292,15 @@ AccFHit ==      \* memo holds f(x): no user call
   /\ fx' = ls.pend /\ fAt' = x /\ pc' = "AccG"
   /\ UNCHANGED <<cfg, chain, nit, nfev, njev, nit0, n0, f0r, x, gAt, pg, memo, mem, matsOf, ls,
                  task, success, calls, lastCb, snap, npts, gen, uphill, fault, out>>
+\* (the point evaluated here IS the new iterate; normally the accepted trial point, but a solver that
+\* recomputes the iterate - x + (xbar - x), xbar itself, a projection - may land on a neighbouring float)
 AccFEval(p, fr) ==
-  /\ pc = "AccF" /\ p = x
+  /\ pc = "AccF"
+  /\ x' = p
+  /\ uphill' = (uphill \/ (gen = 0 /\ fr >= 0 /\ fx >= 0 /\ fr > fx))
   /\ CountF(p) /\ fx' = fr /\ fAt' = p /\ pc' = "AccG"
-  /\ UNCHANGED <<cfg, chain, nit, njev, nit0, n0, f0r, x, gAt, pg, mem, matsOf, ls,
-                 task, success, calls, lastCb, snap, npts, gen, uphill, fault, out>>
+  /\ UNCHANGED <<cfg, chain, nit, njev, nit0, n0, f0r, gAt, pg, mem, matsOf, ls,
+                 task, success, calls, lastCb, snap, npts, gen, fault, out>>
 AccFSkip ==     \* no call although the memo does not hold f(x): the held value is stale
   /\ pc = "AccF" /\ ~(memo.pt = x /\ memo.f)
   /\ pc' = "AccG"
